@@ -236,6 +236,7 @@ type LState struct {
 	mainLoop     func(*LState, *callFrame)
 	ctx          context.Context
 	ctxCancelFn  context.CancelFunc
+	ctxShared    bool // NewThread derived a child context from ctx: it must outlive this thread
 }
 
 func (ls *LState) String() string   { return fmt.Sprintf("thread: %p", ls) }
